@@ -32,10 +32,31 @@ SMALL = [v for v in VOC if v[2] in ("b1d0", "b2d0", "b4d0", "b8d0", "b4d1", "b8t
 def fl(x):
     return F(x)
 
-IMPL = {"bar.run": machines.run_bar}
+def meter_from_list(cnt, unit, ops):
+    """the same history on a bar whose meter was set from a tuple and on one whose meter was set from a LIST that the caller
+    changes right afterwards"""
+    from mingus.containers import Bar
+    outs = []
+    for as_list in (False, True):
+        b = Bar("C", (4, 4))
+        m = [cnt, unit] if as_list else (cnt, unit)
+        b.set_meter(m)
+        if as_list:
+            m[1] = m[1] * 2; m[0] = m[0] + 1
+        tr = []
+        for op in ops:
+            try:
+                r = machines.bar_step(b, op)
+                tr.append([r, machines.bar_out(b)])
+            except Exception as e:
+                tr.append(machines.canon(e))
+        outs.append(tr)
+    return outs
+
+IMPL = {"bar.run": machines.run_bar, "bar.meter_list": meter_from_list}
 
 def has_model(c):
-    return True
+    return c["fn"] != "bar.meter_list"
 
 C_E = [["obj", "C", 4], ["obj", "E", 4]]
 def mk_ops(seq):
@@ -105,6 +126,9 @@ def cases(tier, rng):
         ops = [["place", C_E, 4], ["place", [["obj", "D", 5]], 4], ["rest", 8], ["set_item", 0, None], ["set_item", 2, [["bare", "G"]]],
                ["set_item", 1, None]]
         yield Case("bar.run", ["C", m[0], m[1], ops], "content/rest-assigned", kind=("setrest", m))
+    for cnt, unit in ((6, 8), (3, 4), (4, 4), (5, 16), (2, 2)):
+        yield Case("bar.meter_list", [cnt, unit, [["plus", C_E], ["place", C_E, unit], ["plus", C_E], ["rest", unit], ["plus", C_E], ["plus", C_E], ["plus", C_E]]],
+                   "set_meter/from-list", model=False, kind=("meter_list",))
     for cnt, unit in [(4, 4), (3, 8), (7, 16), (0, 0), (4, 3), (4, 0), (0, 4), (5, 6), (2, 1), (9, 128), (4, 12), (3, F(1, 2)), (-2, 4)]:
         yield Case("bar.run", ["C", 4, 4, [["set_meter", cnt, unit], ["place", C_E, 4]]], "set_meter", kind=("meter", cnt, unit))
         yield Case("bar.run", ["C", cnt, unit, [["place", C_E, 4]]], "ctor_meter", kind=("ctor", cnt, unit))
@@ -218,6 +242,10 @@ def check_run(c, obs):
     return None
 
 def oracle(c, obs):
+    if c["fn"] == "bar.meter_list":
+        if isinstance(obs, Err):
+            return "raised %s" % obs.name
+        return None if obs[0] == obs[1] else "a bar whose meter was set from a list (changed by the caller afterwards) does not behave like the bar whose meter was set from the same numbers as a tuple"
     kind = c["kind"]
     if kind[0] == "run":
         r = check_run(c, obs)
